@@ -94,6 +94,14 @@ def canonicalise_names(j, base):
             cands = [n for n, t2 in N if t2 == t]
             if len(cands) == 1:
                 fren.setdefault(a["key"], {})[cands[0]] = m
+        # same-typed fields that cannot be told apart by type: renames keep the declaration order
+        if len(cfields) == len(bfields) and all(cfields[i][1] == bfields[i][1] for i in range(len(cfields))):
+            done_new = set(fren.get(a["key"], {}))
+            done_old = set(fren.get(a["key"], {}).values())
+            for i, (n, t) in enumerate(cfields):
+                m = bfields[i][0]
+                if n != m and n not in bn and m not in cn and n not in done_new and m not in done_old:
+                    fren.setdefault(a["key"], {})[n] = m
         if a["key"] in fren:
             for x in a["variants"][0]["fields"]:
                 if x["name"] in fren[a["key"]]:
